@@ -139,6 +139,8 @@ func init() {
 			{"pipeline", "P3", 2, "a script line is never dropped: the reader returns whole lines of any length and a last line without line break is processed"},
 			{"pipeline", "P4b", 1, "statement boundaries are computed on exactly the text that is handed to the parser"},
 			{"pipeline", "P4", 1, "statement boundaries respect lexical context (strings, comments)"},
+			{"pipeline", "P8", 3, "in every mode a statement compiled to leave its value is run with Run(true), one compiled to leave none with Run(false); the mode flag reaches processInput unchanged"},
+			{"pipeline", "P9", 1, "vm.Run takes the value off the stack iff asked to"},
 			{"lexfsm", "L4", 40, "a line break yields its EOL whatever precedes it (comment, blank): the modes lay the same program out differently (script mode repeats the line breaks of a multi-line statement, the REPL and -eval do not)"},
 		},
 		Technique:  "must-pass-through / provenance rules on the SSA of the three drivers; abstract interpretation of node.Loop over two reads",
@@ -292,6 +294,9 @@ func init() {
 			{"vmshape", "V7", 6, "frame and closure stacks are pushed and popped pairwise"},
 			{"vmshape", "V8", 60, "DCONT/RCONT free every context in their range and remove the registration"},
 			{"vmshape", "V16", 1, "destroying a context frees its whole subtree"},
+			{"vmshape", "V17", 3, "a return outside any function leaves exactly what the end of Run takes: the value iff Run was asked for the result"},
+			{"pipeline", "P8", 3, "no statement leaves a slot behind: the compile entry point and the argument of Run agree in every driver"},
+			{"pipeline", "P9", 1, "vm.Run pops the result iff asked to"},
 		},
 		Technique:  "stack-height simulation over the control-flow graph of the emitted items (with coroutine transfer edges), inductive over the tree by child summaries",
 		Decides:    "for all programs: operand stack neutrality of every node in every context including loops (heights agree at joins and back-edges, so storage does not grow with the iteration count), pairing of frames and closures in CALL/RET, destruction of every iterator context.",
